@@ -57,7 +57,7 @@ J('A.wcsnlen_s', ['C02', 'C10', 'C05', 'C01'], 'A', 'contracts/str/strnlen_s.spe
 
 SCAN1 = [(1, 'strisalphanumeric_s'), (2, 'strisascii_s'), (3, 'strisdigit_s'), (4, 'strishex_s'), (5, 'strislowercase_s'),
          (6, 'strismixedcase_s'), (7, 'strisuppercase_s'), (10, 'strzero_s'), (11, 'strset_s'), (12, 'strtolowercase_s'),
-         (13, 'strtouppercase_s'), (14, 'strnterminate_s'), (20, 'strfirstchar_s'), (21, 'strlastchar_s')]
+         (13, 'strtouppercase_s'), (14, 'strnterminate_s'), (15, 'strnset_s'), (20, 'strfirstchar_s'), (21, 'strlastchar_s')]
 for fn, nm in SCAN1:
     src = 'src/extstr/%s.c' % nm
     J('A.%s' % nm, ['C02', 'C05', 'C01'] + (['C10'] if (fn <= 7 or fn >= 20) else ['C03', 'C06', 'C08']), 'A', 'contracts/extstr/scan1.spec.c',
